@@ -170,3 +170,122 @@ theorem tableBlocks_build (hne : S ≠ []) :
 
 end
 end CSD.Hash
+
+namespace CSD.Hash
+open CSD CSD.PFC CSD.Blocks
+
+theorem map_eq_filterMap_some {α β : Type} (f : α → Option β) : ∀ (l : List α), (∀ x ∈ l, ∃ y, f x = some y) →
+    l.map f = (l.filterMap f).map some
+  | [], _ => rfl
+  | x :: l, h => by
+    obtain ⟨y, hy⟩ := h x (by simp)
+    rw [List.map_cons, List.filterMap_cons, hy]
+    simp only [List.map_cons, List.cons.injEq, true_and]
+    exact map_eq_filterMap_some f l (fun z hz => h z (by simp [hz]))
+
+theorem nodup_filterMap' {α β : Type} (f : α → Option β)
+    (H : ∀ a a' b, f a = some b → f a' = some b → a = a') : ∀ (l : List α), l.Nodup → (l.filterMap f).Nodup
+  | [], _ => by simp
+  | x :: l, h => by
+    obtain ⟨hx, hl⟩ := List.nodup_cons.mp h
+    rw [List.filterMap_cons]
+    cases hf : f x with
+    | none => exact nodup_filterMap' f H l hl
+    | some b =>
+      simp only
+      refine List.nodup_cons.mpr ⟨?_, nodup_filterMap' f H l hl⟩
+      intro hb
+      obtain ⟨a, ha, hfa⟩ := List.mem_filterMap.mp hb
+      have := H a x b hfa hf
+      subst this
+      exact hx ha
+
+/-- **Each member exactly once**: over good parts the table scan of the blocks dictionary lists `n` strings, all
+members, no string twice. -/
+theorem tableBlocks_each_once {cutSize : Nat} {tsizeOf : Nat → Nat} {S : List Str}
+    (ok : PartsOK cutSize tsizeOf S) (hne : S ≠ []) :
+    ∃ L : List Str, tableBlocks (buildBlocks cutSize tsizeOf S) = some (L.map some) ∧ L.length = S.length ∧
+      L.Nodup ∧ ∀ w ∈ L, w ∈ S := by
+  let d := buildBlocks cutSize tsizeOf S
+  let f : Nat → Option Str := fun i => extractBlocks d (i + 1)
+  have hall : ∀ i ∈ List.range S.length, ∃ y, f i = some y := by
+    intro i hi
+    have hi' := List.mem_range.mp hi
+    obtain ⟨w, _, hw, _⟩ := blocks_extract_then_locate ok (i + 1) (by omega) (by omega)
+    exact ⟨w, hw⟩
+  have hmap := map_eq_filterMap_some f (List.range S.length) hall
+  refine ⟨(List.range S.length).filterMap f, ?_, ?_, ?_, ?_⟩
+  · rw [tableBlocks_build cutSize tsizeOf S hne]
+    exact congrArg some hmap
+  · have := congrArg List.length hmap
+    simpa using this.symm
+  · apply nodup_filterMap' f _ _ List.nodup_range
+    intro a a' b ha ha'
+    -- both IDs are valid, and `locate` of the string gives each of them back
+    have hrange : ∀ x, f x = some b → x < S.length := by
+      intro x hx
+      simp only [f, extractBlocks] at hx
+      have hn : d.n = S.length := rfl
+      by_cases hc : x + 1 > d.n ∨ x + 1 = 0
+      · rw [if_pos hc] at hx; cases hx
+      · rw [hn] at hc; omega
+    obtain ⟨w, _, hw, hl⟩ := blocks_extract_then_locate ok (a + 1) (by omega) (by have := hrange a ha; omega)
+    obtain ⟨w', _, hw', hl'⟩ := blocks_extract_then_locate ok (a' + 1) (by omega) (by have := hrange a' ha'; omega)
+    have e1 : w = b := by
+      have : some w = some b := by rw [← hw]; exact ha
+      exact Option.some.inj this
+    have e2 : w' = b := by
+      have : some w' = some b := by rw [← hw']; exact ha'
+      exact Option.some.inj this
+    rw [e1] at hl; rw [e2] at hl'
+    omega
+  · intro w hw
+    obtain ⟨i, hi, hfi⟩ := List.mem_filterMap.mp hw
+    have hi' := List.mem_range.mp hi
+    obtain ⟨w', hwS, hw', _⟩ := blocks_extract_then_locate ok (i + 1) (by omega) (by omega)
+    have : some w' = some w := by rw [← hw']; exact hfi
+    rw [← Option.some.inj this]; exact hwS
+
+/-- `extractTable` of the single-table hash kinds (HASHRPDAC, HASHRPF, …): `tabledec[i-1] = extract(i)` for
+`i = 1 … elements`. -/
+def tableHash (d : HDict) : List (Option Str) := (List.range d.S.length).map fun i => extract d (i + 1)
+
+/-- **Each member exactly once** in the table scan of a good hash dictionary. -/
+theorem tableHash_each_once {d : HDict} (g : GoodDict d) :
+    ∃ L : List Str, tableHash d = L.map some ∧ L.length = d.S.length ∧ L.Nodup ∧ ∀ w ∈ L, w ∈ d.S := by
+  let f : Nat → Option Str := fun i => extract d (i + 1)
+  have hall : ∀ i ∈ List.range d.S.length, ∃ y, f i = some y := by
+    intro i hi
+    have hi' := List.mem_range.mp hi
+    obtain ⟨w, hw, _, _⟩ := locate_extract g (i + 1) (by omega) (by omega)
+    exact ⟨w, hw⟩
+  have hmap := map_eq_filterMap_some f (List.range d.S.length) hall
+  refine ⟨(List.range d.S.length).filterMap f, hmap, ?_, ?_, ?_⟩
+  · have := congrArg List.length hmap
+    simpa using this.symm
+  · apply nodup_filterMap' f _ _ List.nodup_range
+    intro a a' b ha ha'
+    have hrange : ∀ x, f x = some b → x < d.S.length := by
+      intro x hx
+      simp only [f, extract] at hx
+      by_cases hc : x + 1 = 0 ∨ x + 1 > d.S.length
+      · rw [if_pos hc] at hx; cases hx
+      · omega
+    obtain ⟨w, hw, _, hl⟩ := locate_extract g (a + 1) (by omega) (by have := hrange a ha; omega)
+    obtain ⟨w', hw', _, hl'⟩ := locate_extract g (a' + 1) (by omega) (by have := hrange a' ha'; omega)
+    have e1 : w = b := by
+      have : some w = some b := by rw [← hw]; exact ha
+      exact Option.some.inj this
+    have e2 : w' = b := by
+      have : some w' = some b := by rw [← hw']; exact ha'
+      exact Option.some.inj this
+    rw [e1] at hl; rw [e2] at hl'
+    omega
+  · intro w hw
+    obtain ⟨i, hi, hfi⟩ := List.mem_filterMap.mp hw
+    have hi' := List.mem_range.mp hi
+    obtain ⟨w', hw', hwS, _⟩ := locate_extract g (i + 1) (by omega) (by omega)
+    have : some w' = some w := by rw [← hw']; exact hfi
+    rw [← Option.some.inj this]; exact hwS
+
+end CSD.Hash
